@@ -291,6 +291,10 @@ def run(rep, tier, seed):
     # source_*_is_x690 are about those translations; the translation itself is compared with the code here
     kernels.obligations(rep, ['encodeTag', 'encodeLength', 'toBytes', 'oidEncode', 'realBin', 'setOfSort', 'cerBoolEnc', 'berBoolEnc', 'intEncode'])
     kernels.check(rep, drv, seed, 150 if tier == 'quick' else 4000)
+    # canonical output whatever the type object handed over with a Python tree happens to hold (shared with C17)
+    from harness.props import c17 as _c17
+    rep.case('populated spec objects', nontrivial=True)
+    _c17.check_populated_spec_objects(rep)
     real_bases(rep, drv, tier)
     for ts, vs in CORPUS:
         t = sexp_types.ty_of_sexp(gen.parse_sexps(ts)[0])
